@@ -194,6 +194,14 @@ class ModuleV(V):
         self.name = name
 
 
+class KwargsV(V):
+    """The **kwargs dict of a frame: statically known names."""
+    kind = "kwargs"
+
+    def __init__(self, items):
+        self.items = dict(items)
+
+
 class UnboundV(V):
     kind = "unbound"
 
